@@ -11,7 +11,8 @@
    are covered by the semantic differential only. *)
 From Gv Require Import lib.Bytes lib.Json lib.Gql lib.Exec C03.Model C03.Spec
      C03.ProofsExec C03.ProofsRel C03.ProofsDoc C03.ProofsPasses C03.ProofsDedup C03.ProofsMono
-     C03.ProofsCompose C03.Examples C03.ProofsRefute.
+     C03.ProofsCompose C03.Examples C03.ProofsRefute C03.ProofsDirs.
+From Coq Require Import List Permutation.
 
 (* ---- the executor: fuel only decides whether an execution finishes ---- *)
 Theorem c03_execute_fuel_monotone :
@@ -147,6 +148,48 @@ Print Assumptions c03_dedup_preserves_exec.
 Theorem c03_dedup_idempotent : forall d : document, dedup (dedup d) = dedup d.
 Proof. exact dedup_idempotent. Qed.
 Print Assumptions c03_dedup_idempotent.
+
+(* ---- directive lists in field_deduplication and inline_fragment_selection_merging ----
+   A later selection is dropped as a duplicate ([flat_eqb], the premise of every [dl_drop] step of
+   [dd_sels_dl]) or merged into an earlier one ([can_merge]) only when their directive lists are equal
+   as MULTISETS: some permutation of the later list is pointwise [dir_eqb] to the earlier list
+   (directives may be repeatable: every application is matched with a distinct one). *)
+Theorem c03_dedup_requires_equal_directives : forall x s : selection,
+  flat_eqb x s = true ->
+  exists p, Permutation (sel_dirs s) p /\ Forall2 (fun d d' => dir_eqb d d' = true) (sel_dirs x) p.
+Proof. exact dedup_requires_equal_directives. Qed.
+Print Assumptions c03_dedup_requires_equal_directives.
+
+Theorem c03_merge_requires_equal_directives : forall l r : selection,
+  can_merge l r = true ->
+  exists p, Permutation (sel_dirs r) p /\ Forall2 (fun d d' => dir_eqb d d' = true) (sel_dirs l) p.
+Proof. exact merge_requires_equal_directives. Qed.
+Print Assumptions c03_merge_requires_equal_directives.
+
+(* The set-semantics variant (equal length, every earlier directive equal to SOME later one; seeded
+   regression C04-m7, never the code of /repo) is refuted: it equates
+   [@include(if: $x), @include(if: $x)] with [@include(if: $x), @skip(if: $y)], which no pairwise
+   matching does, and the merging pass built on it changes the response of
+     query($x: Boolean!, $y: Boolean!) { a @include(if:$x) @include(if:$x) { id }  a @include(if:$x) @skip(if:$y) { name } }
+   under {"x": true, "y": true} (the skipped [name] is selected), which the model of the code
+   leaves alone.  (On spec-valid operations the two comparisons can only differ on a repeatable
+   directive, and no directive with execution semantics is repeatable: the sampled exec_preserved
+   clause cannot see the variant, corr:C03/merge_selections and corr:C03/dedup_fields do.) *)
+Theorem c03_merge_dirs_as_set_refuted :
+  dirs_eqb_set [dir_include (VVar n_x); dir_include (VVar n_x)] [dir_include (VVar n_x); dir_skip (VVar n_y)] = true /\
+  (~ exists p, Permutation [dir_include (VVar n_x); dir_skip (VVar n_y)] p /\
+               Forall2 (fun d d' => dir_eqb d d' = true) [dir_include (VVar n_x); dir_include (VVar n_x)] p) /\
+  merge_sel d_set = d_set /\
+  execute 30 S0 U0 Mono (merge_sel_dirs_as_set d_set) None v_set <> execute 30 S0 U0 Mono d_set None v_set /\
+  rs_errs (execute 30 S0 U0 Mono d_set None v_set) = [].
+Proof. exact merge_dirs_as_set_refuted_proof. Qed.
+Print Assumptions c03_merge_dirs_as_set_refuted.
+
+(* the hypothesis of c03_merge_requires_equal_directives is satisfiable by lists that differ in order *)
+Example c03_merge_equal_directives_nontrivial :
+  can_merge (SField None n_a [] [dir_include (VVar n_x); dir_skip (VVar n_y)] [ SField None n_id [] [] [] ])
+            (SField None n_a [] [dir_skip (VVar n_y); dir_include (VVar n_x)] [ SField None n_name [] [] [] ]) = true.
+Proof. exact merge_equal_dirs_witness. Qed.
 
 (* ---- the proved passes composed in engine order ----
    norm_proved S jv d = dedup (remove_frag_defs (self_alias (frag_inline S (include_skip jv d)))) *)
